@@ -216,7 +216,7 @@ def check(run: Run, ctx) -> None:
                  {k: (v if v.startswith("-") or v == "F68" else '-' + v) for k, v in {"mock-groups-by-first-raw-tag": "F23", "mock-client-props-order": "F23", "mock-client-props-differ": "F23", "mock-tag-case-variants-collide": "F23",
                   "mock-client-duplicate-argument": "F23", "mock-client-empty-init": "F31", "property-name-not-identifier": "F29", "client-syntax-error": "F29",
                   "mock-client-syntax-error": "F29", "duplicate-property-name-nonascii": "F68", "private-attr-collision-nonascii": "F68",
-                  "api-client-construction-fails-nonascii": "F68", "tag-client-unreachable-nonascii": "F68"}.items()}, quick=0.5, thorough=4.0)
+                  "api-client-construction-fails-nonascii": "F68", "tag-client-unreachable-nonascii": "F68", "mock-client-duplicate-property-name": "F68"}.items()}, quick=0.5, thorough=4.0)
     run.cov["rule"] = (run.cov.get("rule") or "") + ("[e2e] random documents (0-3 tags per operation, absent / duplicated / FastAPI-style operationIds) x {JSON, YAML block, YAML flow, "
                        "YAML with merge keys (<<: *anchor), YAML with unquoted integer status keys} x the 3 naming strategies generated one after the other in ONE process "
                        "(random order) -> each generated package imported in a fresh interpreter -> coroutine methods per tag client counted against the document's "
